@@ -11,7 +11,8 @@ spec/RunLifecycle (+_Gen, _Trace).  Stages:
             RunLifecycle_Trace classifies every goroutine and judges the tables with the operators of the specification
   self-test recorded tables with one injected leftover helper / program goroutine / a dropped goroutine must be rejected
 Python only pretty-prints cases as Ego source and moves files around."""
-import json, os, random, re
+import json, os, random, re, time, zlib
+from concurrent.futures import ThreadPoolExecutor
 import vf
 
 PROP = "C09"
@@ -32,7 +33,7 @@ def _site(units, i, seed):
     if u["s"] != "cb":
         return u["s"]
     leaf = i + 1 >= len(units) or units[i + 1]["d"] <= u["d"]
-    k = (i * 7 + seed) % len(CB_SITES)
+    k = zlib.crc32(("%s/%d/%d" % (" ".join("%s%s%d" % (x["s"], x["x"], x["d"]) for x in units), i, seed)).encode()) % len(CB_SITES)
     while CB_SITES[k] == "string" and (not leaf or u["b"]):
         k = (k + 1) % len(CB_SITES)
     return CB_SITES[k]
@@ -135,5 +136,484 @@ def sites_of(case, seed):
     return [_site(case["units"], i, seed) for i in range(len(case["units"]))]
 
 
+
+# --------------------------------------------------------------------------------------------- hand-written programs / services
+
+KEYPROGS = {
+    "bigsort": """package main
+import "fmt"
+import "sort"
+func main() {
+	a := []int{}
+	for i := 0; i < 300; i++ {
+		a = append(a, (i * 7919) % 301)
+	}
+	sort.Slice(a, func(i int, j int) bool { return a[i] < a[j] })
+	fmt.Printf("%d %d\\n", a[0], a[299])
+}
+""",
+    "bigsort-error": """package main
+@extensions true
+import "fmt"
+import "sort"
+func main() {
+	a := []int{}
+	for i := 0; i < 120; i++ {
+		a = append(a, (i * 7919) % 121)
+	}
+	n := 0
+	try {
+		sort.SliceStable(a, func(i int, j int) bool {
+			n = n + 1
+			if n % 5 == 0 {
+				z := 0
+				z = 1 / z
+			}
+			return a[i] < a[j]
+		})
+	} catch {
+	}
+	fmt.Printf("%d\\n", n)
+}
+""",
+    "stringer-loop": """package main
+import "fmt"
+type P struct { n int }
+func (p P) String() string {
+	return "P!"
+}
+func main() {
+	for i := 0; i < 150; i++ {
+		fmt.Println(P{n: i})
+	}
+}
+""",
+    "late-goroutine": """package main
+import "fmt"
+import "time"
+func main() {
+	for i := 0; i < 3; i++ {
+		go func() {
+			time.Sleep("120ms")
+			fmt.Printf("late\\n")
+		}()
+	}
+	fmt.Printf("main done\\n")
+}
+""",
+    "uncaught-error": """package main
+import "fmt"
+func f(n int) int {
+	defer func() { fmt.Printf("deferred\\n") }()
+	return 10 / n
+}
+func main() {
+	fmt.Printf("%d\\n", f(0))
+}
+""",
+    "panic-recover": """package main
+import "fmt"
+func g() {
+	defer func() {
+		r := recover()
+		fmt.Printf("recovered %v\\n", r)
+	}()
+	panic("inner")
+}
+func main() {
+	for i := 0; i < 20; i++ {
+		g()
+	}
+	panic("outer")
+}
+""",
+    "os-exit": """package main
+import "fmt"
+import "os"
+func main() {
+	fmt.Printf("bye\\n")
+	os.Exit(3)
+}
+""",
+    "compile-error": """package main
+import "fmt"
+func main() {
+	fmt.Printf("x\\n"
+}
+""",
+    "nested-callbacks": """package main
+import "fmt"
+import "sort"
+import "os"
+func inner(k int) int {
+	b := []int{4, 2, 9, 1, k}
+	sort.Slice(b, func(i int, j int) bool { return b[i] < b[j] })
+	return b[0]
+}
+func main() {
+	a := []int{5, 3, 8, 1, 7, 2}
+	sort.Slice(a, func(i int, j int) bool {
+		s := os.Expand("$X", func(n string) string {
+			_ = n
+			return fmt.Sprintf("%d", inner(i))
+		})
+		_ = s
+		return a[i] < a[j]
+	})
+	fmt.Printf("%v\\n", a)
+}
+""",
+    "workers": """package main
+import "fmt"
+import "sync"
+func main() {
+	var wg sync.WaitGroup
+	total := 0
+	var mu sync.Mutex
+	for i := 0; i < 12; i++ {
+		wg.Add(1)
+		go func(k int) {
+			mu.Lock()
+			total = total + k
+			mu.Unlock()
+			wg.Done()
+		}(i)
+	}
+	wg.Wait()
+	fmt.Printf("%d\\n", total)
+}
+""",
+}
+
+SERVICES = {
+    "ok-sort": """@endpoint get path="/services/c09/ok-sort"
+import "http"
+import "sort"
+func handler(req http.Request, w *http.ResponseWriter) {
+	a := []int{9, 4, 7, 1, 8, 2, 6}
+	sort.Slice(a, func(i int, j int) bool { return a[i] < a[j] })
+	w.WriteHeader(200)
+	w.Write(fmt.Sprintf("%v", a))
+}
+""",
+    "runtime-error": """@endpoint get path="/services/c09/runtime-error"
+import "http"
+func handler(req http.Request, w *http.ResponseWriter) {
+	z := 0
+	v := 10 / z
+	w.WriteHeader(200)
+	w.Write(v)
+}
+""",
+    "panic": """@endpoint get path="/services/c09/panic"
+import "http"
+func handler(req http.Request, w *http.ResponseWriter) {
+	defer func() { fmt.Println("deferred in service") }()
+	panic("service gives up")
+}
+""",
+    "goroutine": """@endpoint get path="/services/c09/goroutine"
+import "http"
+import "sync"
+func handler(req http.Request, w *http.ResponseWriter) {
+	var wg sync.WaitGroup
+	n := 0
+	wg.Add(1)
+	go func() {
+		n = n + 1
+		wg.Done()
+	}()
+	wg.Wait()
+	w.WriteHeader(200)
+	w.Write(fmt.Sprintf("%d", n))
+}
+""",
+    "compile-error": """@endpoint get path="/services/c09/compile-error"
+import "http"
+func handler(req http.Request, w *http.ResponseWriter) {
+	w.WriteHeader(200
+}
+""",
+}
+REPO_SERVICES = ["hello", "bogus-runtime", "bogus-compile", "factor"]
+EXAMPLES = ["goroutine", "panic", "interfaces", "tables", "custom-error-handling", "waitgroup"]
+# directories of /repo/tests that are slow (seconds per pass): thorough tier only
+SLOW_TESTS = {"cipher", "profile", "io", "sql"}
+
+
+def _has_block(c):
+    return any(u["b"] for u in c["units"])
+
+
+def _chunks(jobs, n):
+    """n processes; within a process the executions that leave program goroutines behind come last (small tables)"""
+    out = [[] for _ in range(n)]
+    for k, j in enumerate(jobs):
+        out[k % n].append(j)
+    for ch in out:
+        ch.sort(key=lambda j: 1 if j.get("expect") else 0)
+    return [c for c in out if c]
+
+
+def _harness_run(sd, binp, chunks, tag, settle_ms=60):
+    """runs one harness process per chunk (4 at a time); returns the list of trace files (process order)"""
+    init = os.path.join(sd, "init.ego")
+    if not os.path.exists(init):
+        open(init, "w").write('package main\nimport "fmt"\nfunc main() {\n\tfmt.Printf("init\\n")\n}\n')
+    procs = []
+    for k, ch in enumerate(chunks):
+        w = os.path.join(sd, "w-%s-%d" % (tag, k))
+        os.makedirs(w, exist_ok=True)
+        jf = vf.write_ndjson(os.path.join(w, "jobs.ndjson"), ch)
+        tr = os.path.join(w, "trace.ndjson")
+        env = dict(os.environ)
+        env.update(VERIF_IN=jf, VERIF_OUT=tr, VERIF_WORK=w, VERIF_INITPROG=init, EGO_PATH=vf.REPO,
+                   VERIF_SETTLE_MS=str(settle_ms), VERIF_FINAL_EVERY="120")
+        procs.append(([binp, "-test.run", "^TestVerifC09$", "-test.timeout", "2400s"], None, w, env, tr))
+    res = vf.run_many([p[:4] for p in procs], nproc=4, timeout=2500)
+    traces = []
+    for (rc, so, se), p in zip(res, procs):
+        if rc is None:
+            raise vf.NoVerdict("harness process timed out (%s): an execution did not return\n%s" % (tag, (so + se)[-3000:]))
+        if rc != 0 or not os.path.exists(p[4]):
+            raise vf.NoVerdict("harness process failed (%s rc=%s)\n%s" % (tag, rc, (so + se)[-4000:]))
+        traces.append(p[4])
+    return traces
+
+
+def _judge(chk, sd, trace_path, name):
+    """RunLifecycle_Trace over a recorded log: (report, TLC result)."""
+    r = vf.tlc(SPEC, "RunLifecycle_Trace", "RunLifecycle_Trace.cfg", sd, workers=1, files={"trace.ndjson": trace_path}, timeout=2400)
+    if r.error or r.violated or r.rc != 0:
+        raise vf.NoVerdict("trace evaluation failed: %s %s\n%s" % (r.violated, r.error, r.stdout[-2500:]))
+    rep = [x for x in r.records if isinstance(x, dict) and "bad" in x and "n" in x]
+    if not rep:
+        raise vf.NoVerdict("trace spec printed no report (an event was not understood)\n" + r.stdout[-1500:])
+    if name:
+        chk.add_tlc(r, name, count_states=False)
+    return rep[-1]
+
+
+def _lst(x):
+    return x if isinstance(x, list) else []
+
+
 def run():
-    raise vf.NoVerdict("under construction")
+    thorough = vf.TIER == "thorough"
+    rng = random.Random(vf.SEED)
+    chk = vf.Check(PROP)
+    chk.assumptions += [
+        "an execution = one call of (*Context).RunFromAddress; the per-execution helper is the SIGINT watcher goroutine; other helpers "
+        "would be classified `interp` (any goroutine created by a function of module github.com/tucats/ego that is not a known "
+        "one-time worker) and judged the same way",
+        "programs run in-process through the per-program part of commands.RunAction (harness shim repeating RunAction's own calls "
+        "after its one-time initialisation), commands.TestAction and services.ServiceHandler; child-process services, the debugger and "
+        "the dashboard /admin/run path are not exercised",
+        "goroutines created by Go libraries for objects a program opened and did not close (database/sql pool, net/http idle "
+        "connections) are counted but not judged: they are the program's own unfinished resources",
+        "schedules of the real runtime are sampled (a helper told to stop is given bounded time; only goroutines still present when "
+        "the process has been still for 400 ms are reported); interleavings of helper exits are enumerated on the model only"]
+    with vf.scratch() as sd:
+        # 1-3. model runs, concurrently (independent JVMs) with the build of the harness:
+        #   the design satisfies C09 (exhaustive at the bound); negative controls (vacuity guards); case generation
+        ov = vf.make_overlay(sd, HARNESS)
+        t0 = time.time()
+        with ThreadPoolExecutor(max_workers=8) as ex:
+            fb = ex.submit(vf.go_test_compile, ov, "./" + PKG + "/", os.path.join(sd, "c09.test"), "verif", False, 3000)
+            runs = [("MC fixed, one execution", "RunLifecycle", "RunLifecycle_MC.cfg" if thorough else "RunLifecycle_MCq.cfg", None),
+                    ("MC fixed, two executions in one process", "RunLifecycle", "RunLifecycle_MC2.cfg", None)]
+            if thorough:
+                runs.append(("liveness: the process always settles", "RunLifecycle", "RunLifecycle_Live.cfg", None))
+            runs += [("negative control Impl=%s violates NothingLeft" % v, "RunLifecycle", "RunLifecycle_MC_%s.cfg" % v, "NothingLeft")
+                     for v in ("asis", "noerr", "respawn")]
+            runs.append(("case generation (exhaustive at the bound)", "RunLifecycle_Gen",
+                         "RunLifecycle_Gen.cfg" if thorough else "RunLifecycle_Genq.cfg", None))
+            futs = [ex.submit(vf.tlc, SPEC, mod, cfg, sd, 4 if thorough else 2, None, None, None, 3000) for _, mod, cfg, _ in runs]
+            rg = None
+            for (name, mod, cfg, want), f in zip(runs, futs):
+                r = f.result()
+                if want:
+                    if r.violated != want:
+                        raise vf.NoVerdict("%s: expected a violation of %s, got %s %s" % (name, want, r.violated, r.error))
+                    chk.add_tlc(r, name, count_states=False)
+                else:
+                    vf.tlc_ok(r, name)
+                    chk.add_tlc(r, name)
+                rg = r
+            binp = fb.result()
+        vf.log("model runs + build: %.0fs" % (time.time() - t0))
+        cases = {c["key"]: c for c in rg.records if isinstance(c, dict) and "units" in c}
+        cases = [cases[k] for k in sorted(cases)]
+        if not cases:
+            raise vf.NoVerdict("no cases generated")
+        ncases_all = len(cases)
+        if thorough and len(cases) > 6000:
+            small = [c for c in cases if len(c["units"]) <= 3]
+            big = [c for c in cases if len(c["units"]) > 3]
+            cases = small + rng.sample(big, 6000 - len(small))
+        reps = 3 if thorough else 2
+        pd = os.path.join(sd, "progs")
+        os.makedirs(pd)
+        jobs, site_count = [], {}
+        for n, c in enumerate(cases):
+            p = os.path.join(pd, "c%05d.ego" % n)
+            open(p, "w").write(render(c, seed=vf.SEED))
+            for s, u in zip(sites_of(c, vf.SEED), c["units"]):
+                k = "%s/%s" % (s, "block" if u["b"] else u["x"])
+                site_count[k] = site_count.get(k, 0) + 1
+            jobs.append({"path": "run", "file": p, "key": c["key"], "reps": reps, "hasexp": True, "expect": _lst(c["expect"])})
+        kreps = 200 if thorough else 25
+        kjobs = []
+        for name, src in sorted(KEYPROGS.items()):
+            p = os.path.join(pd, "key-%s.ego" % name)
+            open(p, "w").write(src)
+            kjobs.append({"path": "run", "file": p, "key": "key/" + name, "reps": kreps, "hasexp": False, "expect": []})
+        for name in EXAMPLES:
+            p = os.path.join(vf.REPO, "examples", name + ".ego")
+            if os.path.exists(p):
+                kjobs.append({"path": "run", "file": p, "key": "example/" + name, "reps": 6 if thorough else 2, "hasexp": False, "expect": []})
+        tdir = os.path.join(vf.REPO, "tests")
+        tjobs = []
+        for d in sorted(os.listdir(tdir)):
+            if os.path.isdir(os.path.join(tdir, d)) and (thorough or d not in SLOW_TESTS):
+                tjobs.append({"path": "test", "file": os.path.join(tdir, d), "key": "tests/" + d, "reps": 3 if thorough else 2,
+                              "hasexp": False, "expect": []})
+        sjobs = []
+        svd = os.path.join(sd, "services")
+        os.makedirs(svd)
+        for name, src in sorted(SERVICES.items()):
+            p = os.path.join(svd, name + ".ego")
+            open(p, "w").write(src)
+            sjobs.append({"path": "service", "file": p, "key": "service/" + name, "reps": kreps, "hasexp": False, "expect": [],
+                          "extra": {"endpoint": "c09/" + name}, "accept": "application/json" if len(sjobs) % 2 else "text/plain"})
+        for name in REPO_SERVICES:
+            p = os.path.join(vf.REPO, "lib", "services", name + ".ego")
+            if os.path.exists(p):
+                sjobs.append({"path": "service", "file": p, "key": "repo-service/" + name, "reps": kreps, "hasexp": False, "expect": [],
+                              "extra": {"endpoint": name}, "accept": "application/json"})
+        # 4. T: the real interpreter, many executions per process
+        nproc = max(4, min(24, len(jobs) // 70))
+        chunks = _chunks(jobs, nproc) + _chunks(kjobs, 2) + _chunks(tjobs, 2) + [sjobs]
+        t0 = time.time()
+        traces = _harness_run(sd, binp, chunks, "t")
+        vf.log("harness: %d processes, %.0fs" % (len(traces), time.time() - t0))
+        # one log = every recorded process, followed by tampered copies of the first one (binding self-test, stage 5)
+        events = []
+        for t in traces:
+            events += vf.read_ndjson(t)
+        nreal = len(events)
+        tests = _tampered(vf.read_ndjson(traces[0]), rng)
+        alln = list(events)
+        for t in tests:
+            t["offset"] = len(alln)
+            alln += t["events"]
+        full = vf.write_ndjson(os.path.join(sd, "trace-all.ndjson"), alln)
+        t0 = time.time()
+        rep = _judge(chk, sd, full, "trace validation (%d processes + %d tampered copies)" % (len(traces), len(tests)))
+        vf.log("trace validation: %d events, %.0fs" % (len(alln), time.time() - t0))
+        st = rep["stats"]
+        execs = [e for e in events if e["ev"] == "Exec"]
+        nexec_all = sum(1 for e in alln if e["ev"] == "Exec")
+        if st["execs"] != nexec_all or rep["open"] != 0 or rep["n"] != len(alln):
+            raise vf.NoVerdict("trace not consumed to the end: %s vs %d executions recorded" % (rep, nexec_all))
+        # vacuity guards on what was really executed (projection only: markers the programs printed)
+        ran = sum(1 for e in execs if e["hasexp"] for m in e["marks"] if m.startswith("U"))
+        planned = sum(len(c["units"]) for c in cases) * reps
+        kinds = {}
+        for e in execs:
+            kinds[e["path"] + "/" + e["kind"]] = kinds.get(e["path"] + "/" + e["kind"], 0) + 1
+        for need in ("run/ok", "run/error", "run/panic", "test/ok", "service/ok", "service/error"):
+            if not kinds.get(need):
+                raise vf.NoVerdict("no execution of kind %s was recorded (driver too weak): %s" % (need, kinds))
+        if ran < 0.9 * planned or st["helpers"] == 0 or st["parked"] == 0:
+            raise vf.NoVerdict("generated programs did not run as planned: %d of %d units started, stats %s" % (ran, planned, st))
+        bad = [x for x in _lst(rep["bad"]) if x["idx"] <= nreal]
+        guard = [x for x in _lst(rep["guard"]) if x["idx"] <= nreal]
+        alljobs = jobs + kjobs + tjobs + sjobs
+        for b in bad:
+            e = events[b["idx"] - 1]
+            chk.violation(b["key"], "a goroutine started by the interpreter for a finished execution is still there after the process "
+                          "came to rest (execution: %s %s, ended %s)" % (e.get("path"), e.get("key"), e.get("kind")),
+                          {"event": {k: e.get(k) for k in ("ev", "path", "key", "kind", "err", "marks", "n")},
+                           "file": [j["file"] for j in alljobs if j["key"] == e.get("key")][:1],
+                           "leftover": [g for g in e.get("snap", []) if g["cfn"] in ("(*Context).RunFromAddress", "goByteCode")][:12]})
+        if guard and not bad:
+            raise vf.NoVerdict("the program goroutines left behind differ from what the model computed for %d executions, e.g. %s %s: "
+                               "model or renderer defect" % (len(guard), guard[0], events[guard[0]["idx"] - 1].get("marks")))
+        # 5. binding self-test: what was injected into the tampered copies must have been reported, and nothing else
+        for t in tests:
+            lo, hi = t["offset"], t["offset"] + len(t["events"])
+            tb = [x for x in _lst(rep["bad"]) if lo < x["idx"] <= hi]
+            tg = [x for x in _lst(rep["guard"]) if lo < x["idx"] <= hi]
+            if t["want_bad"] is None:
+                ok = not tb
+            else:
+                ok = any(t["want_bad"] in x["key"] and x["idx"] == lo + t["at"] + 1 for x in tb)
+            if t.get("want_guard"):
+                ok = ok and any(x["idx"] == lo + t["at"] + 1 for x in tg)
+            if not ok and not bad:
+                raise vf.NoVerdict("binding self-test failed: %s (reported: %s %s)" % (t["name"], tb, tg))
+        chk.cov["binding_selftest"] = "; ".join(t["name"] for t in tests)
+        chk.cov["traces_validated_against_impl"] = len(traces)
+        chk.cov["evaluations"] = st["tables"]
+        chk.cov["executions"] = st["execs"]
+        chk.cov["goroutines_judged"] = st["goroutines"]
+        chk.cov["helpers_accounted_for"] = st["helpers"]
+        chk.cov["program_goroutines_left_legitimately"] = st["parked"]
+        chk.cov["library_goroutines_not_judged"] = st["lib"]
+        chk.cov["distinct_nontrivial"] = len(cases) + len(kjobs) + len(tjobs) + len(sjobs)
+        chk.cov["cases_generated"] = ncases_all
+        chk.cov["cases_executed"] = len(cases)
+        chk.cov["executions_by_kind"] = kinds
+        chk.cov["units_by_site_and_exit"] = site_count
+        chk.cov["rule"] = ("cases = every tree of run units at the bound (TLC, exhaustive); executions = in-process runs of rendered cases, "
+                           "key programs, /repo/examples, /repo/tests directories and services; evaluations = goroutine tables judged by "
+                           "RunLifecycle_Trace with Orphans of the specification")
+        chk.cov["exhaustive"] = not (thorough and ncases_all > len(cases))
+        chk.sample({"kind": "case (TLC) and its rendering", "case": cases[len(cases) // 2],
+                    "program": render(cases[len(cases) // 2], seed=vf.SEED)})
+        ex = [e for e in execs if e["expect"]][:1] or execs[:1]
+        chk.sample({"kind": "recorded execution", "event": {k: ex[0][k] for k in ("path", "key", "kind", "marks", "expect", "n")},
+                    "table": ex[0]["snap"][:10]})
+    return chk.finish()
+
+
+def _tampered(ev, rng):
+    """Tampered copies of one recorded process (each a complete log segment starting with its Base event)."""
+    base = ev[0]
+    execs = [i for i, e in enumerate(ev) if e["ev"] == "Exec"]
+    finals = [i for i, e in enumerate(ev) if e["ev"] == "Final"]
+    if not execs or not finals or base["ev"] != "Base":
+        raise vf.NoVerdict("self-test: the recorded trace has no executions")
+    BC = "github.com/tucats/ego/internal/language/bytecode"
+    i = rng.choice([x for x in execs if x < finals[0]])
+    fake = 9000001
+
+    def rec(cpkg, cfn):
+        return {"id": fake, "host": base["driver"], "cpkg": cpkg, "cfn": cfn, "ego": True, "frames": 0, "top": "x"}
+
+    def copy():
+        return json.loads(json.dumps(ev))
+    out = []
+    for name, g, want in (("a helper of a finished execution that stays is reported", rec(BC, "(*Context).RunFromAddress"), "watcher/host=driver"),
+                          ("a program goroutine that stays outside its function is reported", rec(BC, "goByteCode"), "prog/finished"),
+                          ("any other goroutine started by interpreter code is reported",
+                           rec("github.com/tucats/ego/internal/runtime/rest", "Exchange.func1"), "interp/")):
+        cp = copy()
+        for e in cp[i:finals[0] + 1]:
+            e["snap"].append(g)
+        out.append({"name": name, "events": cp, "at": i, "want_bad": want})
+    cp = copy()
+    cp[i]["snap"].append(rec(BC, "(*Context).RunFromAddress"))
+    out.append({"name": "a helper that exits late is not reported", "events": cp, "at": i, "want_bad": None})
+    withexp = [x for x in execs if ev[x]["expect"] and x < finals[-1]]
+    if withexp:
+        j = withexp[-1]
+        cp = copy()
+        prev = {g["id"] for g in cp[j - 1]["snap"]}
+        new = [g["id"] for g in cp[j]["snap"] if g["cfn"] == "goByteCode" and g["id"] not in prev][:1]
+        for e in cp[j:]:
+            e["snap"] = [g for g in e["snap"] if g["id"] not in new and g["host"] not in new]
+        out.append({"name": "a missing legitimate program goroutine is noticed by the residue guard", "events": cp, "at": j,
+                    "want_bad": None, "want_guard": True})
+    return out
